@@ -55,7 +55,7 @@ def same_value(a, b):
     return type(a) == type(b) and a == b
 
 
-def exercise(V, scheme, nfff, target, proj, tmc, obs_kinds, repeat=False):
+def exercise(V, scheme, nfff, target, proj, tmc, obs_kinds, repeat=False, unsorted_grid=False):
     """real Runner + get_result (numerics stubbed); returns list of (label, ok)."""
     import eko.matchings as em
     import yadism.log
@@ -69,6 +69,8 @@ def exercise(V, scheme, nfff, target, proj, tmc, obs_kinds, repeat=False):
     t, o = c06.cards(V, scheme, nfff, pto=0)
     t["TMC"] = tmc
     o["TargetDIS"] = copy.deepcopy(target)
+    if unsorted_grid:
+        o["interpolation_xgrid"] = [1.0, 1e-3, 0.5, 0.1]  # admissible: eko sorts the nodes
     o["ProjectileDIS"] = proj
     o["observables"] = {k: [dict(x=0.1, Q2=V["Q2"]), dict(Q2=V["Q2"], x=0.5)] for k in obs_kinds}
     if any(k.startswith("XS") for k in obs_kinds):
@@ -89,7 +91,10 @@ def exercise(V, scheme, nfff, target, proj, tmc, obs_kinds, repeat=False):
 
     fake_conv = type("FakeConv", (), {"convolve_vector": staticmethod(fake_convolve_vector), "convolution": staticmethod(fake_convolution)})
     res = []
-    with npshim.patched((em, "np", npshim.NPShim()), (svmod.ScaleVariations, "apply_common_scale_variations", no_sv),
+    import yadism.runner as runner_mod
+
+    with npshim.patched((em, "np", npshim.NPShim()), (runner_mod, "np", npshim.NPShim()),
+                        (svmod.ScaleVariations, "apply_common_scale_variations", no_sv),
                         (svmod.ScaleVariations, "apply_diff_scale_variations", no_sv), (esfmod, "conv", fake_conv),
                         (esfmod, "np", npshim.ObjZerosShim()), (tmcmod, "conv", fake_conv)):
         runners = [Runner(t, o)]
@@ -102,7 +107,10 @@ def exercise(V, scheme, nfff, target, proj, tmc, obs_kinds, repeat=False):
             res.append(("cards untouched by get_result()", snapshot(t) == snap_t and snapshot(o) == snap_o))
             res.append(("output.theory echoes the given theory card", same_value(out.theory, t)))
             res.append(("output.observables echoes the given observable card", same_value(out.observables, o)))
-            res.append(("output grid is the grid used", list(np.asarray(out["xgrid"]["grid"], dtype=float)) == list(o["interpolation_xgrid"])
+            used = r.configs.managers["interpolator"]
+            res.append(("output grid is the grid actually used (the interpolator's nodes, in its order)",
+                        list(np.asarray(out["xgrid"]["grid"], dtype=float)) == list(np.asarray(used.xgrid.raw, dtype=float))
+                        and sorted(np.asarray(out["xgrid"]["grid"], dtype=float)) == sorted(set(o["interpolation_xgrid"]))
                         and bool(out["xgrid"]["log"]) == o["interpolation_is_log"]
                         and out["polynomial_degree"] == o["interpolation_polynomial_degree"]))
             res.append(("output pids are the flavour basis", list(out["pids"]) == list(br.flavor_basis_pids)))
@@ -114,7 +122,8 @@ def exercise(V, scheme, nfff, target, proj, tmc, obs_kinds, repeat=False):
 
 def replay_exercise(args):
     try:
-        res = exercise(args["values"], args["scheme"], args["nfff"], args["target"], args["proj"], args["tmc"], args["obs"], args.get("repeat", False))
+        res = exercise(args["values"], args["scheme"], args["nfff"], args["target"], args["proj"], args["tmc"], args["obs"], args.get("repeat", False),
+                       args.get("unsorted_grid", False))
     except ValueError as e:
         return False, f"rejected: {e}"
     bad = [l for l, ok in res if not ok]
@@ -174,14 +183,17 @@ def run(chk, only=None):
             with Ctx(chk.seed) as ctx, stubs.cf_stubs():
                 def body(scheme=scheme, nfff=nfff, tgt=tgt, proj=proj, tmc=tmc, obs=obs, ci=ci):
                     V = c06.sym_values(ctx)
-                    return exercise(V, scheme, nfff, tgt, proj, tmc, obs, repeat=(ci % 3 == 0))
+                    return exercise(V, scheme, nfff, tgt, proj, tmc, obs, repeat=(ci % 3 == 0), unsorted_grid=(ci % 2 == 1))
 
                 V0 = c06.sym_values(ctx)
                 ctx.domain += c06.monotone(V0)
                 ex = explore.Explorer(ctx, max_paths=16, timeout_ms=3000)
                 paths = ex.run(body)
                 chk.paths += len(paths)
-                args = dict(scheme=scheme, nfff=nfff, target=tgt, proj=proj, tmc=tmc, obs=obs, repeat=(ci % 3 == 0))
+                args = dict(scheme=scheme, nfff=nfff, target=tgt, proj=proj, tmc=tmc, obs=obs, repeat=(ci % 3 == 0), unsorted_grid=(ci % 2 == 1))
+                if not any(p.kind == "ok" for p in paths):
+                    chk.inconclusive_note(f"{cname}: vacuity -- no path of this cell computed a result "
+                                          f"({[type(p.value).__name__ + ': ' + str(p.value)[:60] for p in paths[:2]]})")
                 for i, p in enumerate(paths):
                     if p.kind == "exc":
                         if isinstance(p.value, ValueError):
